@@ -109,7 +109,7 @@ def run_unit(unit, rlimit=30, seed=0, keep=True, extra_args=()):
     res.path = out
     open(out, 'w', encoding='utf-8').write(text)
     cmd = ['verus', out, '--error-format=json', '--output-json', '--time', '--multiple-errors', '40',
-           '--rlimit', str(rlimit)] + list(extra_args)
+           '--rlimit', str(rlimit), '--edition', '2024'] + list(extra_args)
     if seed:
         cmd += ['-V', 'smt.random_seed=%d' % (seed % 100000)] if False else []
     res.cmd = ' '.join(cmd)
